@@ -140,6 +140,12 @@ theorem uniqueProtoclustersNoCore_not_invariant :
   ⟨[⟨10, 70, 1, 30, 60, 1⟩, ⟨10, 70, 1, 20, 40, 2⟩], [⟨10, 70, 1, 20, 40, 2⟩, ⟨10, 70, 1, 30, 60, 1⟩],
    List.Perm.swap _ _ _, by decide, by decide, by decide⟩
 
+/-- the numbers under which the `areas` JSON lists a region's protoclusters and under which its
+    candidate clusters refer to them ("same numbering") do not depend on how the set iterates -/
+theorem areasProtoclusterNumbers_invariant_partial (cross : Bool) (L : Int) (candidates : List (List Proto)) :
+    EnumerationInvariantOn (KeyInj cross L) (fun enum => areasProtoclusterNumbers cross L enum candidates) :=
+  fun l₁ l₂ inj h => by simp only [areasProtoclusterNumbers, uniqueProtoclusters_perm inj h]
+
 /-! ## stages writing out sets of names (fixes D51, D51b, D53) -/
 
 /-- `CDSResults.to_json`: the "definition_domains" lists do not depend on how the sets iterate -/
@@ -157,6 +163,11 @@ theorem definitionDomainsJsonOld_not_invariant :
 theorem annotate_invariant (existing : List GeneFn) (prevIds domains : List Int) (d₁ d₂ : List (Int × List Int))
     (h : SameDictOfSets d₁ d₂) : annotate existing prevIds d₁ domains = annotate existing prevIds d₂ domains :=
   annotate_same existing prevIds domains h
+
+/-- … from the results' own domain list (`SecMetQualifier.add_domains` included) -/
+theorem annotateFull_invariant (existing : List GeneFn) (prevIds newDomains : List Int) (d₁ d₂ : List (Int × List Int))
+    (h : SameDictOfSets d₁ d₂) : annotateFull existing prevIds d₁ newDomains = annotateFull existing prevIds d₂ newDomains :=
+  annotate_same existing prevIds _ h
 
 /-- D51b: before the fix the CORE annotations were added in iteration order -/
 theorem annotateOld_not_invariant :
